@@ -94,12 +94,12 @@ GENERIC = {
     "C06": " Also: the denomination-linkage and execute-once rules of the liquidity module (foreign shares redeemed against a pool, or a deposit executed twice, change the reserves per share). Also: pool creation recomputes the other coin's amount (rounded up) only when its first guess strictly exceeds the offer. Also: x = quote, y = base at every call into the amm package. The module's identifier-kind rule is part of this check.",
     "C02": " Also: counter provenance (a vault stored under a fresh id takes it from the vault counter read in the same function, and that id is what is stored back as the counter), and the stable-mint handlers book on the stable vault of the product the message names. Also: a running amount (esm redemption set-up) is started and continued with the same quantity.",
     "C01": " Also (repository-wide rules scoped to the vault module): identifier-kind agreement at every keeper call, no stale copy for every Get/Set accessor pair, outside the handlers a vault is credited only by an amount moved into vault custody in the same function (auction settlement under shutdown), and records loaded under independent message ids are tied by an equality test before a coin-moving handler can succeed. Also: counter provenance for vault ids. Also: direction-flag updaters of the published totals store the field plus / minus the amount and nothing else; no sdk-math result is computed and dropped.",
-    "C03": " Also: records loaded under independent message ids (product and vault) are tied by an equality test, so the limits applied are those of the vault's own product. Also: in/out scale agreement and price discipline in the vault and market modules (a failed or inactive price is an error, never a default value). Also: direction-flag updaters of the minted / locked totals store the field plus / minus the amount; the floor is compared with one vault's principal.",
+    "C03": " Also: records loaded under independent message ids (product and vault) are tied by an equality test, so the limits applied are those of the vault's own product. Also: in/out scale agreement and price discipline in the vault and market modules (a failed or inactive price is an error, never a default value). Also: direction-flag updaters of the minted / locked totals store the field plus / minus the amount; the floor is compared with one vault's principal. The vault module's stale-copy rule is part of this check; every total a direction-flag updater touches gets both directions.",
     "C04": " Also (liquidity module): identifier-kind agreement at every keeper call and no stale copy for every Get/Set accessor pair. Also: a message naming a pool and carrying one coin cannot succeed without the denomination equality with the pool's share denomination; a stored request reaches its executor only behind Status == NotExecuted or when just recorded.",
     "C07": " Also: paired writers (an order id is indexed only together with storing the order). Also: identifier kinds through record constructors and field-by-field record fills (an app id stored as the pair id of the market-making order index). Also: a newly created order is entered into the orderer's index on every success path.",
     "C08": " Also: paired writers mined from the repository and frozen (a new borrow id only with the stored borrow, its entry in the lend position's open-borrow list and the totals update; a removed borrow leaves every index); the LTV check of a draw covers principal and accrued interest. Also (lend module): identifier-kind agreement at every keeper call, no stale copy for every Get/Set accessor pair, and borrow totals follow the change applied to the recorded principal when the function changes it. Also: counter provenance for lend/borrow ids. Also: a lend/borrow record stored under a fresh id advances its counter on the same success path. Also: UpdateLendStats / UpdateBorrowStats store the field plus / minus the amount for the two flag values.",
-    "C09": " Also (liquidation modules): identifier-kind agreement at every keeper call and no stale copy for every Get/Set accessor pair. Also: each sweep reads and stores its cursor under its own key (own prefix, swept app), no two sweeps share a key; a lend position is deleted only under the AmountIn <= 0 test of its own record. Also: the vault length counter that bounds the sweep window moves exactly with vault creation and deletion; readers of the liquidation modules build their store key from their inputs.",
-    "C10": " Also (auction modules): identifier-kind agreement at every keeper call and no stale copy for every Get/Set accessor pair. Also: the elapsed time of the price path is measured from the auction record's own StartTime at all three update sites; at a v1 close the penalty sent to the collector is the collected inflow less the burnt principal. Also: a V2 settlement payout is never sized by the auction's remaining debt.",
+    "C09": " Also (liquidation modules): identifier-kind agreement at every keeper call and no stale copy for every Get/Set accessor pair. Also: each sweep reads and stores its cursor under its own key (own prefix, swept app), no two sweeps share a key; a lend position is deleted only under the AmountIn <= 0 test of its own record. Also: the vault length counter that bounds the sweep window moves exactly with vault creation and deletion; readers of the liquidation modules build their store key from their inputs. The debt that decides a vault seizure contains principal, interest and closing fee.",
+    "C10": " Also (auction modules): identifier-kind agreement at every keeper call and no stale copy for every Get/Set accessor pair. Also: the elapsed time of the price path is measured from the auction record's own StartTime at all three update sites; at a v1 close the penalty sent to the collector is the collected inflow less the burnt principal. Also: a V2 settlement payout is never sized by the auction's remaining debt. V2 price updates happen only while the auction has not expired; no id parameter of a vault / auction keeper function is ignored.",
     "C11": " Also: the minimum bid step is rounded up; a deleted limit-bid deposit leaves the recorded total (paired writers). Also (auction modules): identifier-kind agreement at every keeper call and no stale copy for every Get/Set accessor pair. Also: in the automatic fill each reduction of the recorded limit-bid total equals the change of the depositor's record on the same path. Also: the depositor's record and the recorded total change by the same amount in every limit-bid function.",
     "C13": " Also: identifier-kind agreement and generic stale-copy rule for locker and collector, per-asset books receive the amount of the same side (sold lot / raised asset) of the auction record as the asset id they are keyed by, and locker handlers tie the records loaded under independent message ids. Also: UpdateCollector raises the net fees by the sum of exactly the fee amounts handed in; counter provenance for locker ids. Also: the stateless validation of the locker messages rejects negative and zero amounts.",
     "C14": " Also: the failure branch of a price/ratio helper cannot reach a success exit; every call into the esm and market keepers passes ids of the kind the callee names (the breaker is not looked up under an asset id); vault/locker/lend handlers tie the records loaded under independent message ids (the breaker's app is the position's app). Also: a sweep that consults the breaker of the app it sweeps seizes only vaults tied to that app.",
